@@ -64,9 +64,11 @@
 (* takes appendFinalSnapshot as one step and interleaves it between the    *)
 (* micro steps of the poll goroutine.  appendFinalSnapshot itself reads    *)
 (* FinalIndex and then CacheRound.Number: a round transition between the   *)
-(* two reads is what its "cache and index malformed" retry is for; that    *)
-(* window is not modelled (invariant NoRetry: with atomic reads the retry  *)
-(* never happens).                                                         *)
+(* two reads is what its "cache and index malformed" retry is for.  With   *)
+(* atomic reads the retry never happens (invariant NoRetry); MC_Pool with  *)
+(* Split = TRUE separates the two reads: the retry becomes reachable and   *)
+(* every other statement still holds for a chain whose rounds are fed      *)
+(* through the pool (the slot of the closed round is then never nil).      *)
 (*                                                                         *)
 (* How the real loop is stepped by the harness                             *)
 (* (harness/inpkg/kernel/zz_verif_pool_test.go): the real                  *)
@@ -108,17 +110,18 @@ InitState(u, h0) ==
      dirty |-> FALSE, pc |-> "idle", pi |-> 0, pidx |-> 0, pn |-> 0, pj |-> 0, pk |-> 0, pkn |-> 0]
 
 -----------------------------------------------------------------------------
-(* chain.go:appendFinalSnapshot *)
-AppendFinal(S, p, s) ==
+(* chain.go:appendFinalSnapshot; fi0 = the value of FinalIndex it read first (fi := chain.FinalIndex),
+   the head round is read after it *)
+AppendFinalAt(S, fi0, p, s) ==
     LET r     == RoundOf(S, s)
         start == S.head
-        pr    == Slot(S, S.fi)
+        pr    == Slot(S, fi0)
     IN
     IF ~(pr.num = -1 \/ pr.num = start \/ pr.num + K = start) THEN [res |-> "retry", S |-> S]
     ELSE IF r < start THEN [res |-> "expired", S |-> S]
     ELSE IF r - start >= K THEN [res |-> "far", S |-> S]
     ELSE
-      LET off == (r - start + S.fi) % K
+      LET off == (r - start + fi0) % K
           old == Slot(S, off)
           sl  == IF old.num = -1 THEN [num |-> r, size |-> 0, arr |-> <<>>]
                  ELSE IF old.num # r THEN [old EXCEPT !.num = r, !.size = 0]
@@ -140,6 +143,8 @@ AppendFinal(S, p, s) ==
               S |-> [S EXCEPT !.pool = SetSlot(S, off, [sl EXCEPT !.arr[j].peers = Append(e.peers, p)]),
                               !.dirty = TRUE]]
         ELSE [res |-> "dup", S |-> S]
+
+AppendFinal(S, p, s) == AppendFinalAt(S, S.fi, p, s)
 
 (* chain.go:AppendFinalSnapshot *)
 Recv(S, p, s) ==
